@@ -57,6 +57,10 @@ def run(env, tier, seed, broken=None):
         for t in [FUN + ' @() {}', FUN + ' f(@) {}', FUN + ' f(a, @) {}', FUN + ' f(a, @, c) {}', '@ = 1;', 'o.@;', 'o.@ = 1;', PRINT + ' {@: 1};', PRINT + ' {a: 1, @: 2};',
                   '@(1);', '{ ' + FUN + ' @() {} }', FUN + ' g() { ' + FUN + ' @() {} }', FUN + ' g() { ' + VAR + ' a = 1, @ = 2; }']:
             texts.append(t.replace('@', nm))
+    # look-alikes of every keyword and built-in name (other normalisation form, joiner inside, mark appended, character dropped
+    # or doubled): ordinary identifiers under the documented grammar, in binding and in use position
+    for nm in lang.near_words():
+        texts += ['%s %s = 1; %s %s;' % (VAR, nm, PRINT, nm), nm + ';', '%s f(%s) { %s %s; }' % (FUN, nm, RETURN, nm), '%s (1) 1; %s 2;' % (IF, nm)]
     # declarator lists: every pattern of initialised / uninitialised declarators up to 4, initialisers that span lines
     # (array and object literals may), so that each declarator's own initialiser and line end up in the tree
     for k in (1, 2, 3, 4):
